@@ -52,6 +52,8 @@ type FuncContract struct {
 	Sweep     bool // safety obligations only (zero annotation)
 	SweepTags []string
 	Requires  []*Clause
+	TrustedFrame bool // frame assumed, body verified for everything else
+	Entry     []*Clause // assumed at entry, not imposed on callers (API entry points); listed as assumptions
 	Ensures   []*Clause
 	Invs      []*Clause
 	Sites     []*Clause
@@ -116,6 +118,7 @@ type Contracts struct {
 	Guarded  []*Guarded
 	StateFields []*StateFields
 	Callers  []*CallersRule
+	MapRanges []*CallersRule
 	pureMemo map[*ssa.Function]int
 	Defines  map[string]string // $NAME macros (textual)
 	Files   []string
@@ -126,7 +129,7 @@ var tagRe = regexp.MustCompile(`\s*\[((?:C\d+)(?:\s*,\s*C\d+)*)\]\s*$`)
 
 var clauseKeywords = map[string]bool{
 	"func": true, "requires": true, "ensures": true, "modifies": true, "pure": true, "trusted": true,
-	"loop": true, "site": true, "ghost": true, "nonnil": true, "guarded_by": true, "state_fields": true, "callers": true, "nilable": true, "fields_copied": true,
+	"loop": true, "site": true, "ghost": true, "nonnil": true, "guarded_by": true, "entry": true, "state_fields": true, "callers": true, "map_ranges": true, "nilable": true, "fields_copied": true,
 	"sweep": true, "package": true, "axiom": true, "allow": true, "witness": true, "nosafety": true,
 	"deferrule": true, "skipfield": true, "preserves": true, "typeinv": true, "updates": true, "deterministic": true, "init": true, "nosite": true, "blocks": true, "define": true, "fnspec": true, "result": true, "param": true, "implements": true,
 }
@@ -354,6 +357,18 @@ func (cs *Contracts) parseFile(path, pkg string, external bool) error {
 			default:
 				return fail("bad %s clause %q", kw, rest)
 			}
+		case "entry":
+			// entry <expr>: assumed when the function is entered, NOT imposed on its callers - what an API entry
+			// point (Executor.Run, main) may take for granted about the goroutine that calls it from outside the
+			// verified code. Every entry assumption a run relies on is listed in its evidence.
+			if cur == nil {
+				return fail("%s outside func", kw)
+			}
+			c, err := mk("requires", rest)
+			if err != nil {
+				return err
+			}
+			cur.Entry = append(cur.Entry, c)
 		case "requires", "ensures":
 			if cur == nil {
 				return fail("%s outside func", kw)
@@ -451,7 +466,14 @@ func (cs *Contracts) parseFile(path, pkg string, external bool) error {
 			if cur == nil {
 				return fail("trusted outside func")
 			}
-			cur.Trusted = true
+			if strings.TrimSpace(rest) == "frame" {
+				// "trusted frame": the body IS verified against the requires / ensures / site clauses, but its
+				// modifies frame is assumed, not checked (it calls into libraries that have no frame of their own);
+				// listed among the assumptions of every run that uses it
+				cur.TrustedFrame = true
+			} else {
+				cur.Trusted = true
+			}
 		case "nosafety":
 			if cur == nil {
 				return fail("nosafety outside func")
@@ -608,6 +630,12 @@ func (cs *Contracts) parseFile(path, pkg string, external bool) error {
 				g.Except = w[3:]
 			}
 			cs.Guarded = append(cs.Guarded, g)
+		case "map_ranges":
+			_, tail, ok := strings.Cut(rest, ":")
+			if !ok || len(strings.Fields(tail)) == 0 {
+				return fail("map_ranges : <func> ...")
+			}
+			cs.MapRanges = append(cs.MapRanges, &CallersRule{Allowed: strings.Fields(tail), Tags: tags, File: path, Line: rc.line})
 		case "callers":
 			head, tail, ok := strings.Cut(rest, " : ")
 			if !ok || len(strings.Fields(head)) == 0 || len(strings.Fields(tail)) == 0 {
